@@ -62,10 +62,10 @@ Qed.
 Lemma pressure_total ps : total (pressure_model ps) (length ps).
 Proof. rewrite pressure_model_char. apply total_tab. Qed.
 
-Lemma flat_total D st ft tol xs ts :
-  regular_ns (D * NS) ts -> (1 <= D)%Z -> length ts = length xs -> 0 <= st -> 0 <= ft ->
+Lemma flat_total d st ft tol xs ts :
+  regular_ns d ts -> (0 < d)%Z -> length ts = length xs -> 0 <= st -> 0 <= ft ->
   total (flat_model st ft tol xs ts) (length xs).
-Proof. intros. rewrite (flat_refines D) by assumption. apply total_tab. Qed.
+Proof. intros. rewrite (flat_refines d) by assumption. apply total_tab. Qed.
 
 Lemma atten_total check ct st ft tp mo mp xs ts :
   parse_check_type check = Some ct ->
